@@ -79,7 +79,7 @@ static const struct enc ENC[] = {
 #else
 #define K_BASE VC_USER
 #endif
-enum { K_ENCCALLS = K_BASE, K_DECCALLS, K_CTRL_UNDECODABLE, K_STRING_PAYLOAD, K_BUFSIZES, K_REFUSED_SMALL, K_NAN, K_HALF, K_SINGLE, K_DOUBLE, K_TOTALITY, K_LOADS, K_NAN_PAYLOAD_KEPT, K_NAN_PAYLOAD_LOST };
+enum { K_ENCCALLS = K_BASE, K_DECCALLS, K_CTRL_UNDECODABLE, K_STRING_PAYLOAD, K_BUFSIZES, K_REFUSED_SMALL, K_CLAIMED, K_NAN, K_HALF, K_SINGLE, K_DOUBLE, K_TOTALITY, K_LOADS, K_NAN_PAYLOAD_KEPT, K_NAN_PAYLOAD_LOST };
 static vf_sb sb;
 
 /* expected RFC bytes for encoder e applied to raw value v (for floats: v = bit pattern of the argument;
@@ -149,6 +149,27 @@ static void judge(const struct enc* e, uint64_t v, bool distinct) {
     vf_hex(x, sizeof x, exp, el);
     vf_fail(NULL, "%s(%#" PRIx64 ") wrote %zu bytes %s, RFC 8949 head is %s", e->name, v, w, g, x);
     return;
+  }
+  /* the same call with a larger (also a very large) buffer_size must write the same bytes: the size argument is a bound, not a request.
+   * Only the head may be touched, and the 16 bytes in front of the guard page are all that really exists - a write beyond the head
+   * would be a C07 violation and, past 16 bytes, a SIGSEGV */
+  if (distinct || (v & 0xff) == 0x2a) {
+    static const size_t CLAIM[] = {0, 1, 7, 0x7fffffffu, 0x80000000u, 0xffffffffu, 0x100000000ull, 0x100000005ull, (size_t)1 << 63, SIZE_MAX};
+    for (unsigned ci = 0; ci < sizeof CLAIM / sizeof CLAIM[0]; ci++) {
+      size_t claim = ci < 3 ? el + CLAIM[ci] : CLAIM[ci];
+      if (claim < el) continue;
+      uint8_t* big = end - 16;
+      memset(big, 0xA5, 16);
+      size_t w2 = e->fn(v, big, claim);
+      vf_cnt(K_CLAIMED, 1);
+      if (w2 != el || memcmp(big, exp, el)) {
+        vf_fail(NULL, "%s(%#" PRIx64 ") with buffer_size %#zx returned %zu; with buffer_size %zu it wrote the %zu-byte RFC head", e->name, v, claim, w2, el, el);
+        break;
+      }
+      for (size_t i = el; i < 16; i++)
+        if (big[i] != 0xA5) { vf_fail(NULL, "%s(%#" PRIx64 ") with buffer_size %#zx wrote beyond the head it reported", e->name, v, claim); break; }
+    }
+    memcpy(b, exp, el); /* the sweep reused the bytes in front of the guard page: put the head back for the decoding step */
   }
   /* decode what was written */
   size_t total = el;
@@ -337,10 +358,10 @@ struct vf_check vf_the_check = {
     .assumptions = {"reference head encoder ref_put_head / tokeniser ref_head (RFC 8949 section 3) are correct; pinned by ./vf setup",
                     "cbor_encode_ctrl(24..31) has no well-formed RFC encoding and is outside the judged domain",
                     "string-start heads are decoded together with a payload of the declared length when that length is <= 70000; beyond that only NEDATA is required here (C08 judges `required`)",
-                    "output buffer is exactly as long as the RFC head and ends at a PROT_NONE page"},
+                    "output buffer is exactly as long as the RFC head and ends at a PROT_NONE page; additionally every pair of the exhaustive/structured parts is encoded with buffer_size = exact+1, exact+7, 2^31-1, 2^31, 2^32-1, 2^32, 2^32+5, 2^63 and SIZE_MAX (16 real bytes in front of the guard page)"},
     .counters = {[VC_EVAL] = "encoder_value_pairs_judged", [VC_DISTINCT] = "distinct_pairs", [VC_TRANS] = "encode_decode_round_trips", [VC_TRACES] = "executed_on_implementation",
                  [K_ENCCALLS] = "encoder_calls", [K_DECCALLS] = "decoder_calls", [K_CTRL_UNDECODABLE] = "simple_values_encoded_but_not_decodable",
-                 [K_STRING_PAYLOAD] = "string_heads_decoded_with_payload", [K_NAN] = "NaN_inputs"},
+                 [K_STRING_PAYLOAD] = "string_heads_decoded_with_payload", [K_NAN] = "NaN_inputs", [K_CLAIMED] = "calls_with_larger_claimed_buffer_sizes"},
     .init = init, .units = units, .unit = enc_unit, .replay = replay};
 #endif
 
